@@ -66,7 +66,8 @@ EXPECT_PROBES = ("blocked", "preempted", "reentrant", "ref_cycle", "ref_cycle_3"
                  "advanced", "oldest_judged_with_phase_order_different", "exempt_set", "cycle_with_exempt_member",
                  "cycle_all_members_exempt", "victim_is_exempt_member", "victim_judged_with_exempt_other_member",
                  "manual_kill", "cycle_with_member_restarted_after_watchdog_kill",
-                 "victim_was_killed_by_this_watchdog_before")
+                 "victim_was_killed_by_this_watchdog_before", "reported_edges_judged", "reported_edges_judged_ring3",
+                 "timeout_of_a_bystander_in_the_sweep_of_a_deadlock")
 
 OPS = ["A", "B", "C"]
 RES = ["r0", "r1", "r2"]
@@ -148,6 +149,23 @@ def gen(rng, tier, i):
         held = {"r0": "B", "r1": "B"}
         wants.update(["B", "C"])
         depth = max(depth, len(ops) + 2)
+    elif rng.random() < 0.07 and nops == 3:
+        # time-out bystander family: an unrelated third operation trips the operation time limit in the very sweep in
+        # which a deadlock of the two others is reported
+        c_, a, b = rng.sample(OPS, 3)
+        cfg["limit"] = True
+        pre = [["start", c_, prio_of.get(c_, 0)], ["clock", LIMIT + 1.0], ["start", a, prio_of.get(a, 0)]]
+        if rng.random() < 0.5:
+            pre.append(["clock", 1.0])
+        pre.append(["start", b, prio_of.get(b, 0)])
+        ops = [["acq", a, "r0"], ["acq", b, "r1"], ["acq", a, "r1"], ["acq", b, "r0"]]
+        if rng.random() < 0.4 and "r2" in res:
+            ops.insert(rng.randrange(0, 4), ["acq", c_, "r2"])
+        ops.append(["wd"])
+        held = {"r0": a, "r1": b}
+        wants.update([a, b])
+        waits.update([(a, b), (b, a)])
+        depth = max(depth, len(ops) + 1)
     elif rng.random() < 0.1:
         # rematch family: a two-party deadlock is broken by the (one, long-lived) watchdog or by a manual kill through it,
         # the killed ids are started again under the same id and priority, and the same two meet again
@@ -522,6 +540,24 @@ def run(plan, k):
                                 f"reported {reported} but reference edges are {sorted(loose)}")
                 else:
                     ok_cycle = True
+                    # ---- the edges the report lists: DeadlockInfo.cycle = (waiter, blocker, resource) per member, and
+                    # .resources the same resources in order.  Every triple must be a real wait, and together they must
+                    # be the ring over .agents (the unchanged code lists exactly one recorded edge per consecutive pair)
+                    triples = [tuple(t) for t in (getattr(info, "cycle", None) or [])]
+                    lt = set(loose)
+                    bad = [t for t in triples if t not in lt]
+                    k.probe("reported_edges_judged")
+                    if len(reported) >= 3:
+                        k.probe("reported_edges_judged_ring3")
+                    if bad:
+                        k.violation("cycle_live", "reported_edge_not_waiting", "ring%d" % min(len(reported), 3),
+                                    f"reported agents {reported}, edges {triples}; not real waits: {bad}; reference {sorted(loose)}")
+                    elif sorted((a, b) for a, b, _ in triples) != sorted(pairs):
+                        k.violation("cycle_live", "reported_edges_do_not_form_the_cycle", "ring%d" % min(len(reported), 3),
+                                    f"reported agents {reported}, edges {triples}")
+                    elif list(getattr(info, "resources", []) or []) != [r for _, _, r in triples]:
+                        k.violation("cycle_live", "reported_resources_differ_from_edges", "ring%d" % min(len(reported), 3),
+                                    f"resources {info.resources}, edges {triples}")
         else:
             state["phantom"] = False
         return reported if ok_cycle else None
@@ -692,6 +728,8 @@ def run(plan, k):
                     killed_by_wd.add(e.operation_id)
                 if dl:
                     k.probe("deadlock_handled")
+                if before is not None and any(e.reason.name != "DEADLOCK" and e.operation_id not in before for e in events):
+                    k.probe("timeout_of_a_bystander_in_the_sweep_of_a_deadlock")
                 if before is not None:
                     ex = [o for o in before if ctxs[o].metadata.get("watchdog_exempt")]
                     if ex:
